@@ -296,11 +296,34 @@ def run(prog, chk):
     def m_parse(it, e, env):
         a = it.expr(SX.real_args(e)[0], env)
         return Obj(table[a])
+    def pair_fields(prm):
+        """(field holding the running version, field holding the released one) of a record parameter with exactly two SemVer fields:
+        the field a builder function fills from its first string parameter is the running version (call sites pass it first)"""
+        tn = (prm.get('type') or '').replace('const ', '').replace('&', '').strip()
+        rec = prog.facts.records.get(tn) or next((r_ for n_, r_ in prog.facts.records.items() if n_.endswith('::' + tn.split('::')[-1])), None)
+        if not rec:
+            return None
+        sf = [f_['name'] for f_ in rec.get('fields', []) if 'SemVer' in f_['type']]
+        if len(sf) != 2:
+            return None
+        for b_ in prog.functions:
+            if not b_.body or not b_.file.endswith('update_manager.cpp') or len(b_.params) != 2 or tn.split('::')[-1] not in (b_.ret or ''):
+                continue
+            for n_ in SX.walk(b_.body, into_lambdas=False):
+                w_ = SX.write_target(n_)
+                if w_ and SX.is_node(SX.strip(w_[0])) and SX.strip(w_[0]).get('k') == 'member' and SX.strip(w_[0])['name'] in sf and \
+                        any(y.get('k') == 'ref' and y.get('id') == b_.params[0].get('id') for y in SX.walk(w_[1])):
+                    first = SX.strip(w_[0])['name']
+                    return first, [x for x in sf if x != first][0]
+        return sf[0], sf[1]
     bad = []
     for c, l, vc, vl, o in states:
         table['CUR'], table['LAT'] = c, l
         if all('SemVer' in (p_.get('type') or '') for p_ in hasLatest.params):
             r, _ = run_fn(hasLatest, [Obj(c), Obj(l)], {'parseSemVer': m_parse})       # takes the parsed versions
+        elif len(hasLatest.params) == 1 and pair_fields(hasLatest.params[0]):
+            fcur, flat = pair_fields(hasLatest.params[0])
+            r, _ = run_fn(hasLatest, [Obj({fcur: Obj(c), flat: Obj(l)})], {'parseSemVer': m_parse})     # takes both parsed versions in one record
         else:
             r, _ = run_fn(hasLatest, ['CUR', 'LAT'], {'parseSemVer': m_parse})
         want = vc and vl and lex(o) <= 0
@@ -344,6 +367,20 @@ def run(prog, chk):
         latest_gate = any((not pol) and SX.is_node(ce) and ce['k'] == 'call' and SX.callee(ce) == hasLatest.name for ce, pol, _ in gs)
         valid_gate = sum(1 for ce, pol, _ in gs if (not pol) and SX.is_node(ce) and ce['k'] == 'un' and False) >= 0
         vg = [SX.show(ce) for ce, pol, _ in gs if SX.is_node(ce) and ce['k'] == 'member' and ce['name'] == 'valid' and pol]
+        for ce, pol, _ in gs:
+            # `versions.comparable()` — a const member whose whole body is `return a.valid && b.valid;`
+            if pol and SX.is_node(ce) and ce.get('k') == 'mcall' and ce.get('constm') and not SX.real_args(ce):
+                for h_ in prog.resolve(ce):
+                    hb = h_.body['body'] if h_.body and h_.body.get('k') == 'block' else []
+                    if len(hb) == 1 and hb[0].get('k') == 'return':
+                        def conj_(c_):
+                            c_ = SX.strip(c_)
+                            if SX.is_node(c_) and c_.get('k') == 'bin' and c_['op'] == '&&':
+                                return conj_(c_['l']) + conj_(c_['r'])
+                            return [c_]
+                        cs = conj_(hb[0].get('e'))
+                        if all(SX.is_node(c_) and c_.get('k') == 'member' and c_['name'] == 'valid' for c_ in cs):
+                            vg += ['%s.%s' % (SX.show(SX.strip(ce.get('obj'))), SX.show(c_).replace('this->', '')) for c_ in cs]
         chk.ob('R20.1', selfupd, c.ln, latest_gate, 'install step %s must be reached only when hasLatest(current, latest) is false' % SX.short(SX.callee(c.e)),
                key='install-gate:newer:' + SX.short(SX.callee(c.e)))
         chk.ob('R20.1', selfupd, c.ln, len(set(vg)) >= 2, 'install step %s must be reached only when both version strings parsed (found %s)' % (SX.short(SX.callee(c.e)), vg),
